@@ -272,11 +272,12 @@ impl CellBuffer {
     fn style<MSG>(settings: &Settings, legend_css: String) -> Node<MSG> {
         use sauron::html::units::px;
 
-        let stroke_color = settings.stroke_color.to_owned();
+        // the values end up as character data of the style element
+        let stroke_color = escape_css_text(&settings.stroke_color);
         let stroke_width = settings.stroke_width.to_owned();
-        let background = settings.background.to_owned();
-        let fill_color = settings.fill_color.to_owned();
-        let font_family = settings.font_family.to_owned();
+        let background = escape_css_text(&settings.background);
+        let fill_color = escape_css_text(&settings.fill_color);
+        let font_family = escape_css_text(&settings.font_family);
         let font_size = settings.font_size.to_owned();
 
         // we put a .svgbob class in order to avoid clashing with other svg in the document
